@@ -149,6 +149,15 @@ func genDoc(r *rand.Rand) Doc {
 		}
 		p.Vars = append(p.Vars, d)
 	}
+	if r.IntN(12) == 0 {
+		// a type name that does not exist (an error diagnostic); hover still names the declared type
+		for i := range p.Vars {
+			if p.Vars[i].Fn != "" && r.IntN(2) == 0 {
+				p.Vars[i].Type = []string{"monetry", "amount", "acount", "num"}[r.IntN(4)]
+				break
+			}
+		}
+	}
 	pr := p.Print()
 	if r.IntN(10) == 0 {
 		// Windows line endings: lines and columns of every token are unchanged
